@@ -46,7 +46,7 @@ theorem argWellTyped_iff' (env : Impl.Env) (t : Ty) (a : Expr) (h : BuiltS env a
 def GoodE (env : Impl.Env) (e : Expr) : Prop :=
   BuiltS env e ∧ Spec.intsExpr env.minIdx env.maxIdx e = true
 
-def Good (env : Impl.Env) (x : PExpr) : Prop := GoodE env x.e
+def GoodPx (env : Impl.Env) (x : PExpr) : Prop := GoodE env x.e
 
 def SelOK (env : Impl.Env) (s : Selector) : Prop :=
   Spec.wtSel (sigsOf env) s = true ∧ Spec.intsSel env.minIdx env.maxIdx s = true
